@@ -132,6 +132,8 @@ def render_btoks(toks):
             x = '`include "%s"' % t["n"]
         elif k == "cmt":
             x = t["n"]
+            if x.startswith("//"):
+                x += _CUR_NL             # a one-line comment inside an actual argument: the usage continues on the next line
         elif k == "def":
             src = render_btoks(t["a"])
             t["s"] = src.strip()
